@@ -1013,6 +1013,13 @@ def compare(case, obs, mouts):
     if obs.get("witness"):
         real = canon_full(obs["flows"][-1]["prog"][1:])  # [0] is the flow's implicit `match StartFlow(...)`
         wit = canon_full(mouts[0]["prog"])
+        if real != wit:
+            # after the repair (/repo 3c50707) the else path also merges the case heads and ends the scope: the as-is
+            # witness is then exactly the real expansion minus that `merge; end` pair (canon_full renames labels by first
+            # occurrence and the pair introduces no new label, so removing it must give the witness back)
+            for i in range(len(real) - 1):
+                if real[i][0] == "merge" and real[i + 1][0] == "end" and real[:i] + real[i + 2:] == wit:
+                    return None
         return None if real == wit else f"the Lean witness program of finding 2.x:scope-reopened is no longer what expand_elements produces: {wit} vs {real}"
     it = iter(mouts)
     for f in obs.get("flows", []):
